@@ -230,14 +230,15 @@ Section Proofs.
     destruct (spec_selected fsem m r pn (flags_fluxes true) n false) as [f0|fl|d0| |e0|]; cbn [fst snd]; try (split; auto; fail).
     destruct (map_res (select_cols lookupsQ (signed_names neg sto)) fl) as [fl1|e1]; [|cbn [fst snd]; split; auto].
     destruct G1 as [K1 R1].
+    pose proof Hnd as HndL. rewrite <- Hlast in HndL.
     destruct scaled.
     - destruct (scale_loop_spec m v neg (signed_names neg sto) pn fl1 (p0 :: ps) (s_cur st1) Hnd Hall K1) as [cur2 [E2 K2]].
       rewrite E2. destruct (spec_scale fsem m v neg (signed_names neg sto) fl1 (p0 :: ps)) as [fl2|e2].
-      + rewrite (apply_params_same (last (p0 :: ps) []) cur2); [|rewrite Hlast; exact Hnd|rewrite Hlast; exact K2].
+      + rewrite (apply_params_same (last (p0 :: ps) []) cur2); [|exact HndL|exact (eq_trans K2 (eq_sym Hlast))].
         cbn [negb]. assert (G3 : good_state pn tbs (mkSt (last (p0 :: ps) []) (s_raw st1))) by (split; [exact Hlast|exact R1]).
         destruct conc; [destruct (concat0 fl2)|]; cbn [fst snd]; split; auto.
       + cbn [fst snd]. split; [reflexivity|]. split; [exact K2|exact R1].
-    - rewrite (apply_params_same (last (p0 :: ps) []) (s_cur st1)); [|rewrite Hlast; exact Hnd|rewrite Hlast; exact K1].
+    - rewrite (apply_params_same (last (p0 :: ps) []) (s_cur st1)); [|exact HndL|exact (eq_trans K1 (eq_sym Hlast))].
       cbn [negb]. assert (G3 : good_state pn tbs (mkSt (last (p0 :: ps) []) (s_raw st1))) by (split; [exact Hlast|exact R1]).
       destruct conc; [destruct (concat0 fl1)|]; cbn [fst snd]; split; auto.
   Qed.
@@ -315,4 +316,194 @@ Section Proofs.
       + injection Hn as ->. rewrite (E Hv). reflexivity.
       + apply (IH st' i o G Hn Hv).
   Qed.
+
+  Lemma fresh_is_good pn tbs cur : map fst cur = pn -> good_state pn tbs (mkSt cur []).
+  Proof. intro H. split; [exact H|left; reflexivity]. Qed.
+
+  Lemma read_order_irrelevant m r pn tbs :
+    wf_res r pn -> evaluable fsem m pn -> canon_tables fsem m r = Ok tbs ->
+    forall os1 os2 st1 st2 i j o,
+      good_state pn tbs st1 -> good_state pn tbs st2 ->
+      nth_error os1 i = Some o -> nth_error os2 j = Some o -> is_view o = true ->
+      nth_error (run_ops fsem FX m r os1 st1) i = nth_error (run_ops fsem FX m r os2 st2) j.
+  Proof.
+    intros Hwf Hev Hc os1 os2 st1 st2 i j o G1 G2 H1 H2 Hv.
+    rewrite (run_ops_nth m r pn tbs Hwf Hev Hc os1 st1 i o G1 H1 Hv).
+    rewrite (run_ops_nth m r pn tbs Hwf Hev Hc os2 st2 j o G2 H2 Hv). reflexivity.
+  Qed.
+
+  (** cells of a view = cells of the per-segment tables computed under the segment's own parameters *)
+  Lemma args_view_is_tables m r pn tbs st f :
+    wf_res r pn -> evaluable fsem m pn -> canon_tables fsem m r = Ok tbs -> good_state pn tbs st ->
+    fst (run_op fsem FX m r (OArgs f false NNone) st) =
+    match map_res (select_cols lookups (view_names m pn f)) tbs with
+    | Ok data => VFrames (map qframe data)
+    | Err e => VErr e
+    end.
+  Proof.
+    intros Hwf Hev Hc Hg. cbn [run_op].
+    destruct (view_selected_spec m r pn tbs st f NNone false Hwf Hev Hc Hg) as [E _]. rewrite E.
+    unfold spec_selected. rewrite Hc. destruct (map_res _ tbs); reflexivity.
+  Qed.
+
+  Lemma rhs_view_is_model_rhs m r pn tbs st :
+    wf_res r pn -> canon_tables fsem m r = Ok tbs -> good_state pn tbs st ->
+    fst (run_op fsem FX m r (ORhs NNone false) st) =
+    match spec_rhs_list fsem m tbs (r_pars r) with
+    | Ok fs => VFrames (map qframe fs)
+    | Err e => VErr e
+    end.
+  Proof.
+    intros Hwf Hc Hg. cbn [run_op].
+    destruct (view_rhs_spec m r pn tbs st NNone false Hwf Hc Hg) as [E _]. rewrite E.
+    unfold spec_rhs. rewrite Hc. destruct (spec_rhs_list fsem m tbs (r_pars r)); reflexivity.
+  Qed.
+
+  Lemma adjust_conc data n d :
+    adjust FX data n false = VFrames d ->
+    adjust FX data n true = match concat0 d with Ok f => VFrame f | Err e => VErr e end.
+  Proof. unfold adjust. destruct (normalise FX data n); intro H; [injection H as <-; reflexivity|discriminate]. Qed.
+
+  Lemma adjust_norm data n :
+    adjust FX data n false = match normalise FX data n with Ok d => VFrames d | Err e => VErr e end.
+  Proof. unfold adjust. destruct (normalise FX data n); reflexivity. Qed.
+
+  Lemma spec_selected_conc m r pn f n d :
+    spec_selected fsem m r pn f n false = VFrames d ->
+    spec_selected fsem m r pn f n true = match concat0 d with Ok x => VFrame x | Err e => VErr e end.
+  Proof.
+    unfold spec_selected. destruct (canon_tables fsem m r) as [a|]; [|discriminate].
+    destruct (map_res (select_cols lookups (view_names m pn f)) a); [|discriminate]. apply adjust_conc.
+  Qed.
+  Lemma spec_vars_conc m r pn dv ro sv n d :
+    spec_vars fsem m r pn dv ro sv false n = VFrames d ->
+    spec_vars fsem m r pn dv ro sv true n = match concat0 d with Ok x => VFrame x | Err e => VErr e end.
+  Proof.
+    unfold spec_vars. destruct (negb (dv || ro || sv)); [apply adjust_conc|apply spec_selected_conc].
+  Qed.
+  Lemma spec_rhs_conc m r n d :
+    spec_rhs fsem m r n false = VFrames d ->
+    spec_rhs fsem m r n true = match concat0 d with Ok x => VFrame x | Err e => VErr e end.
+  Proof.
+    unfold spec_rhs. destruct (canon_tables fsem m r) as [a|]; [|discriminate].
+    destruct (spec_rhs_list fsem m a (r_pars r)); [|discriminate]. apply adjust_conc.
+  Qed.
+
+  Definition stacked (d : list (frame Q)) : out := match concat0 d with Ok x => VFrame x | Err e => VErr e end.
+
+  Lemma concat_is_stack m r pn tbs st1 st2 d :
+    wf_res r pn -> evaluable fsem m pn -> canon_tables fsem m r = Ok tbs ->
+    good_state pn tbs st1 -> good_state pn tbs st2 ->
+    (forall f n, fst (run_op fsem FX m r (OArgs f false n) st1) = VFrames d ->
+                 fst (run_op fsem FX m r (OArgs f true n) st2) = stacked d)
+    /\ (forall dv ro sv n, fst (run_op fsem FX m r (OVars dv ro sv false n) st1) = VFrames d ->
+                 fst (run_op fsem FX m r (OVars dv ro sv true n) st2) = stacked d)
+    /\ (forall surr n, fst (run_op fsem FX m r (OFluxes surr n false) st1) = VFrames d ->
+                 fst (run_op fsem FX m r (OFluxes surr n true) st2) = stacked d)
+    /\ (forall n, fst (run_op fsem FX m r (ORhs n false) st1) = VFrames d ->
+                 fst (run_op fsem FX m r (ORhs n true) st2) = stacked d).
+  Proof.
+    intros Hwf Hev Hc G1 G2. unfold stacked.
+    assert (S1 : forall o, is_view o = true -> fst (run_op fsem FX m r o st1) = spec_op fsem m r pn o)
+      by (intros o; apply (run_op_spec m r pn tbs o st1 Hwf Hev Hc G1)).
+    assert (S2 : forall o, is_view o = true -> fst (run_op fsem FX m r o st2) = spec_op fsem m r pn o)
+      by (intros o; apply (run_op_spec m r pn tbs o st2 Hwf Hev Hc G2)).
+    repeat split; intros.
+    - rewrite S2 by reflexivity. rewrite S1 in H by reflexivity. apply spec_selected_conc. exact H.
+    - rewrite S2 by reflexivity. rewrite S1 in H by reflexivity. apply spec_vars_conc. exact H.
+    - rewrite S2 by reflexivity. rewrite S1 in H by reflexivity. apply spec_selected_conc. exact H.
+    - rewrite S2 by reflexivity. rewrite S1 in H by reflexivity. apply spec_rhs_conc. exact H.
+  Qed.
+
+  Definition normalised (data : list (frame Q)) (n : norm) : out :=
+    match normalise FX data n with Ok d => VFrames d | Err e => VErr e end.
+
+  Lemma spec_selected_norm m r pn f n data :
+    spec_selected fsem m r pn f NNone false = VFrames data ->
+    spec_selected fsem m r pn f n false = normalised data n.
+  Proof.
+    unfold spec_selected, normalised. destruct (canon_tables fsem m r) as [a|]; [|discriminate].
+    destruct (map_res (select_cols lookups (view_names m pn f)) a) as [l|]; [|discriminate].
+    intro H. change (adjust FX (map qframe l) NNone false) with (VFrames (map qframe l)) in H.
+    injection H as <-. apply adjust_norm.
+  Qed.
+  Lemma spec_vars_norm m r pn dv ro sv n data :
+    spec_vars fsem m r pn dv ro sv false NNone = VFrames data ->
+    spec_vars fsem m r pn dv ro sv false n = normalised data n.
+  Proof.
+    unfold spec_vars. destruct (negb (dv || ro || sv)); [|apply spec_selected_norm].
+    intro H. unfold adjust in H. cbn [normalise] in H. injection H as <-. apply adjust_norm.
+  Qed.
+  Lemma spec_rhs_norm m r n data :
+    spec_rhs fsem m r NNone false = VFrames data -> spec_rhs fsem m r n false = normalised data n.
+  Proof.
+    unfold spec_rhs, normalised. destruct (canon_tables fsem m r) as [a|]; [|discriminate].
+    destruct (spec_rhs_list fsem m a (r_pars r)) as [l|]; [|discriminate].
+    intro H. change (adjust FX (map qframe l) NNone false) with (VFrames (map qframe l)) in H.
+    injection H as <-. apply adjust_norm.
+  Qed.
+
+  Lemma normalised_view m r pn tbs st1 st2 data :
+    wf_res r pn -> evaluable fsem m pn -> canon_tables fsem m r = Ok tbs ->
+    good_state pn tbs st1 -> good_state pn tbs st2 ->
+    (forall f n, fst (run_op fsem FX m r (OArgs f false NNone) st1) = VFrames data ->
+                 fst (run_op fsem FX m r (OArgs f false n) st2) = normalised data n)
+    /\ (forall dv ro sv n, fst (run_op fsem FX m r (OVars dv ro sv false NNone) st1) = VFrames data ->
+                 fst (run_op fsem FX m r (OVars dv ro sv false n) st2) = normalised data n)
+    /\ (forall surr n, fst (run_op fsem FX m r (OFluxes surr NNone false) st1) = VFrames data ->
+                 fst (run_op fsem FX m r (OFluxes surr n false) st2) = normalised data n)
+    /\ (forall n, fst (run_op fsem FX m r (ORhs NNone false) st1) = VFrames data ->
+                 fst (run_op fsem FX m r (ORhs n false) st2) = normalised data n).
+  Proof.
+    intros Hwf Hev Hc G1 G2.
+    assert (S1 : forall o, is_view o = true -> fst (run_op fsem FX m r o st1) = spec_op fsem m r pn o)
+      by (intros o; apply (run_op_spec m r pn tbs o st1 Hwf Hev Hc G1)).
+    assert (S2 : forall o, is_view o = true -> fst (run_op fsem FX m r o st2) = spec_op fsem m r pn o)
+      by (intros o; apply (run_op_spec m r pn tbs o st2 Hwf Hev Hc G2)).
+    repeat split; intros.
+    - rewrite S2 by reflexivity. rewrite S1 in H by reflexivity. apply spec_selected_norm. exact H.
+    - rewrite S2 by reflexivity. rewrite S1 in H by reflexivity. apply spec_vars_norm. exact H.
+    - rewrite S2 by reflexivity. rewrite S1 in H by reflexivity. apply spec_selected_norm. exact H.
+    - rewrite S2 by reflexivity. rewrite S1 in H by reflexivity. apply spec_rhs_norm. exact H.
+  Qed.
+
+  Lemma prodcons_is_spec m r pn tbs st (neg : bool) v scaled n conc :
+    wf_res r pn -> evaluable fsem m pn -> canon_tables fsem m r = Ok tbs -> good_state pn tbs st ->
+    fst (run_op fsem FX m r (if neg then OConsumers v scaled n conc else OProducers v scaled n conc) st)
+    = spec_prodcons fsem m r pn neg v scaled n conc.
+  Proof.
+    intros Hwf Hev Hc Hg. destruct neg; cbn [run_op]; apply (view_prodcons_spec m r pn tbs); assumption.
+  Qed.
 End Proofs.
+
+(** * what [normalise] computes, branch by branch (fixed per-row branch) *)
+Lemma normalise_scalar data q :
+  is_zero q = false ->
+  normalise expected_facts data (NScalar q) = Ok (map (fun f => div_frame f q) data).
+Proof. intro H. cbn [normalise]. rewrite H. reflexivity. Qed.
+
+Lemma normalise_per_segment data l :
+  existsb is_zero l = false -> length l = length data ->
+  normalise expected_facts data (NList l) = Ok (map (fun fq => div_frame (fst fq) (snd fq)) (combine data l)).
+Proof. intros H Hl. cbn [normalise]. rewrite H, Hl, Nat.eqb_refl. reflexivity. Qed.
+
+Lemma norm_rows_grouped : forall data qss,
+  Forall2 (fun f qs => length qs = length (f_rows f)) data qss ->
+  norm_rows data (concat qss) = Ok (map (fun fq => div_rows (fst fq) (snd fq)) (combine data qss)).
+Proof.
+  induction 1 as [|f qs data qss Hlen Hrest IH]; [reflexivity|].
+  cbn [norm_rows concat combine map fst snd].
+  rewrite <- Hlen. rewrite firstn_app, Nat.sub_diag, firstn_all, firstn_O, app_nil_r, Nat.eqb_refl.
+  rewrite skipn_app, Nat.sub_diag, skipn_all, skipn_O. cbn [app]. rewrite IH. reflexivity.
+Qed.
+
+Lemma normalise_per_row data qss :
+  existsb is_zero (concat qss) = false -> length (concat qss) <> length data ->
+  Forall2 (fun f qs => length qs = length (f_rows f)) data qss ->
+  normalise expected_facts data (NList (concat qss))
+  = Ok (map (fun fq => div_rows (fst fq) (snd fq)) (combine data qss)).
+Proof.
+  intros H Hne Hf. cbn [normalise]. rewrite H.
+  destruct (Nat.eqb_spec (length (concat qss)) (length data)) as [E|_]; [contradiction|].
+  change (rf_norm_rows expected_facts) with NRFixed. cbn match. apply norm_rows_grouped. exact Hf.
+Qed.
